@@ -106,6 +106,8 @@ def make_registry():
     permmodel.install_contiguous(R)
     from . import sparsemodel
     sparsemodel.install(R, models)
+    from . import pyxmodel
+    pyxmodel.install(R)
     return R
 
 
